@@ -18,6 +18,7 @@ THEOREMS = [
     "Yaw.C13.rotation_preserves_chord", "Yaw.C13.rotation_preserves_angle", "Yaw.C13.count_of_equal_pairs",
     "Yaw.C13.row_perm_invariant", "Yaw.C13.counts_additive", "Yaw.C13.label_perm_equivariant",
     "Yaw.C13.weight_scale_invariant_cross", "Yaw.C13.weight_scale_invariant_auto",
+    "Yaw.C13.mean_perm", "Yaw.C13.cov_perm_invariant",
 ]
 RULE = ("metamorphic runs of the real pipeline (crosscorrelate with DD, DR [, RD, RR], CorrFunc.sample, "
         "RedshiftData.from_corrfuncs): base measurement vs the same data (1) rigidly rotated (random rotations, onto "
